@@ -435,6 +435,54 @@ pub fn concurrent(rep: &mut Report) {
     rep.absorb(t);
 }
 
+/// A value parsed on one thread and *used* on another (values are `Send`): the decoded content,
+/// every key lookup and the traversal must be what they are on the parsing thread (C02). Each
+/// accepted document of the history alphabet, through both text entry points; the using thread is
+/// fresh, and so is the parsing thread.
+pub fn cross_thread(rep: &mut Report) {
+    use json_syntax::{Parse, Value};
+    let docs = documents();
+    let mut t = Tally::new();
+    let mut used = 0usize;
+    // (hash mode 3 of the hook: every key index gets a seed of its own, as in a build without
+    // the hook - under the fixed seed of mode 0 two hashers made on two threads would agree)
+    let mode_before = json_syntax::object::verif::HASH_MODE.swap(3, std::sync::atomic::Ordering::SeqCst);
+    for (name, bytes, _) in &docs {
+        let Ok(text) = std::str::from_utf8(bytes) else { continue };
+        let Ok(doc) = refmodel::dec::decode(text) else { continue };
+        if !doc.faults.is_empty() {
+            continue;
+        }
+        used += 1;
+        for entry in 0..2u8 {
+            t.evals += 1;
+            let text2 = text.to_string();
+            let parsed = std::thread::spawn(move || if entry == 0 { Value::parse_str(&text2).ok().map(|x| x.0) } else { Value::parse_slice(text2.as_bytes()).ok().map(|x| x.0) }).join();
+            let case = json!({"kind": "cross-thread", "document": name, "entry": entry});
+            let Ok(Some(v)) = parsed else {
+                t.violation("", format!("{name}: a valid document is rejected on a fresh thread"), case);
+                continue;
+            };
+            let want = doc.value.clone();
+            let r = std::thread::spawn(move || {
+                let r = explore::guard(|| crate::props::check_value(&v, &refmodel::dec::Doc { value: want.clone(), map: Vec::new(), faults: Vec::new() }));
+                crate::pump::release(v);
+                r
+            })
+            .join();
+            match r {
+                Ok(Ok(Ok(()))) => t.outcome("value parsed on one thread, used on another"),
+                Ok(Ok(Err(e))) => t.violation("", format!("{name}: parsed on one thread and used on another: {e}"), case),
+                Ok(Err(p)) => t.violation("", format!("{name}: using the value on another thread panicked: {p}"), case),
+                Err(_) => t.violation("", format!("{name}: the using thread died"), case),
+            }
+        }
+    }
+    json_syntax::object::verif::HASH_MODE.store(mode_before, std::sync::atomic::Ordering::SeqCst);
+    rep.bounds["cross_thread"] = json!({"documents": used, "entry_points": 2, "hash_mode": "a seed per key index"});
+    rep.absorb(t);
+}
+
 /// Thread life cycle: parsing from the destructor of a thread-local while the thread exits.
 pub fn at_thread_exit(rep: &mut Report) {
     use json_syntax::{Parse, Value};
